@@ -30,6 +30,11 @@ EXPECTED_NOT_UNDERSTOOD = {
     "seeded/C12-C/patch.diff": "step lookup rewritten with np.searchsorted over unsorted annotations: the evaluator has no model of searchsorted",
     "seeded/C07-E/patch.diff": "computation kernels swept unmerged with running >= 3: a different sweep algorithm; the rule only knows the two-merged-operand template",
     "seeded/C11-F/patch.diff": "cat/name encoded with two pd.factorize calls and an offset: ids no longer read from the table; pd.factorize is not interpreted",
+    "seeded/C01-O/patch.diff": "symbol table built with pd.factorize and an id offset: pd.factorize is not interpreted (same family as C11-F)",
+    "seeded/C03-P/patch.diff": "the START/END sort and scan replaced by a single sweep popping frames whose end <= ts: another stack algorithm; the rule only knows the sorted two-endpoint scan",
+    "seeded/C12-O/patch.diff": "host step lookup vectorised with pd.cut over step starts: pd.cut is not interpreted",
+    "seeded/C13-P/patch.diff": "heights by one reverse pass over the node map instead of the recursion: another traversal; the rule abstracts the recursive call",
+    "seeded/C18-O/patch.diff": "binary-search fast path with Series.searchsorted: searchsorted is not interpreted",
     "seeded/C03-L/patch.diff": "sort_events rewritten as a numpy time sort plus per-run comparison sorts: another sorting scheme; whether every run is covered is not decidable from the shape",
 }
 
